@@ -4,7 +4,7 @@ from irbmc import core
 from irbmc.core import Family, Harness, STRING_MODEL
 
 NOINLINE = [r'chaiscript::detail::Cast_Helper_Inner<.*>::cast', r'bad_any_cast::bad_any_cast', r'std::runtime_error::runtime_error', r'chaiscript::Boxed_Value::Object_Data::get',
-            r'chaiscript::Boxed_Value::Data::Data', r'std::make_shared<', r'chaiscript::detail::Any::Any<', r'chaiscript::detail::Any::~Any', r'std::shared_ptr<.*>::~shared_ptr', r'std::shared_ptr<.*>::shared_ptr\('] + STRING_MODEL
+            r'chaiscript::Boxed_Value::Data::Data', r'std::make_shared<', r'chaiscript::detail::Any::Any<', r'chaiscript::detail::Any::~Any', r'std::shared_ptr<.*>::~shared_ptr', r'std::shared_ptr<.*>::shared_ptr\(', r'chaiscript::Boxed_Value::assign\(', r'chaiscript::Boxed_Value::Boxed_Value<', r'bad_boxed_cast::bad_boxed_cast'] + STRING_MODEL
 FAM = Family('boxed', 'boxed.cpp', noinline=NOINLINE)
 FORMS = {1: ('int', r'Cast_Helper_Inner<int>::cast'), 2: ('const int&', r'Cast_Helper_Inner<int const&>::cast'), 3: ('int&', r'Cast_Helper_Inner<int&>::cast'),
          4: ('int*', r'Cast_Helper_Inner<int\*>::cast'), 5: ('const int*', r'Cast_Helper_Inner<int const\*>::cast')}
